@@ -12,7 +12,7 @@ open SparseV.Dot SparseV.Spec
 /-- **csr_dense_kernel_spec.** For every CSR triple whose column indices are below the inner
 dimension `n` and every dense right operand, element `(i, k)` of the output of `_dot_csr_ndarray`
 is `Σ_{j<n} a[i,j] · b[j,k]`, where `a[i,j]` is the dense value the triple stands for. -/
-theorem csr_dense_kernel_spec (nRow n nCol : Nat) (A : CSR) (b : Dense) (hA : A.ColsIn n)
+theorem csr_dense_kernel_spec (nRow n nCol : Nat) (A : CSR) (b : DenseM) (hA : A.ColsIn n)
     (i k : Nat) (hi : i < nRow) (hk : k < nCol) :
     dget (dotCsrNd nRow nCol A b) i k = matmulSpec n A.get (dget b) i k := by
   unfold dotCsrNd dget matmulSpec CSR.get
@@ -21,7 +21,7 @@ theorem csr_dense_kernel_spec (nRow n nCol : Nat) (A : CSR) (b : Dense) (hA : A.
 
 /-- non-vacuity: a 2×3 CSR matrix with an empty row times a 3×2 dense matrix with a cancelling sum -/
 def exA : CSR := { indptr := [0, 2, 2], indices := [0, 2], data := [1, -1] }
-def exB : Dense := [[2, 5], [9, 9], [2, 1]]
+def exB : DenseM := [[2, 5], [9, 9], [2, 1]]
 example : exA.ColsIn 3 ∧ dotCsrNd 2 2 exA exB = [[0, 4], [0, 0]] ∧ matmulSpec 3 exA.get (dget exB) 0 1 = 4 := by decide
 
 /-- **csr_csr_kernel_spec** (value level).  For all CSR operands with in-range minor indices
@@ -112,7 +112,7 @@ theorem rows_sorted_counterexample : ¬ Statement_csr_csr_rows_sorted := by
 allocates exactly the entries written, `indptr` delimits the rows, and row `i` looked up at column
 `k < n_col` is `Σ_{j<n} a[i,j] · b[j,k]` (a column is skipped only when every factor `b[j,k]` met by the
 row is 0, and then the sum is 0). -/
-theorem csr_nd_sparse_kernel_spec (nRow n nCol : Nat) (A : CSR) (b : Dense) (hA : A.ColsIn n) (hAw : A.WF) :
+theorem csr_nd_sparse_kernel_spec (nRow n nCol : Nat) (A : CSR) (b : DenseM) (hA : A.ColsIn n) (hAw : A.WF) :
     (dotCsrNdSparse nRow nCol A b).alloc = (dotCsrNdSparse nRow nCol A b).data.length ∧
     ∀ i k, i < nRow → k < nCol →
       lookupK (slice ((dotCsrNdSparse nRow nCol A b).indices.zip (dotCsrNdSparse nRow nCol A b).data)
@@ -172,12 +172,12 @@ example : exC.ColsIn 2 ∧ exD.ColsIn 4 ∧ (dotCooCooLoop 1 4 exC exD).2 = [(0,
 /-- "the slots `_csc_ndarray_count_nnz` allocates are exactly the entries `_dot_csc_ndarray_sparse`
 writes" (what `csr_csr_precount_eq_written` proves for `_dot_csr_csr`) … -/
 def Statement_csc_nd_sparse_precount_eq_written : Prop :=
-  ∀ (aRows bRows bCols : Nat) (A : CSR) (b : Dense), A.WF → A.ColsIn aRows →
+  ∀ (aRows bRows bCols : Nat) (A : CSR) (b : DenseM), A.WF → A.ColsIn aRows →
     (dotCscNdSparse aRows bRows bCols A b).alloc = (dotCscNdSparse aRows bRows bCols A b).data.length
 
 /-- the CSC triple of `[[1, -1, 2]]` and the dense `[[1,0],[1,0],[0,1]]`: column 0 of the product cancels -/
 def exE : CSR := { indptr := [0, 1, 2, 3], indices := [0, 0, 0], data := [1, -1, 2] }
-def exF : Dense := [[1, 0], [1, 0], [0, 1]]
+def exF : DenseM := [[1, 0], [1, 0], [0, 1]]
 
 /-- … is false: the pre-count looks at the pattern only, the fill loop skips sums that are 0.  Two
 slots are allocated and `indptr = [0, 1, 2]`, but one entry is written: the entry of column 1 lands in
@@ -194,7 +194,7 @@ example : (dotCscNdSparse 1 3 2 exE exF).alloc = 2 ∧ (dotCscNdSparse 1 3 2 exE
 
 /-- "the row indices of every column written by `_dot_csc_ndarray_sparse` increase" … -/
 def Statement_csc_nd_sparse_cols_sorted : Prop :=
-  ∀ (aRows bRows bCols : Nat) (A : CSR) (b : Dense), A.WF → A.ColsIn aRows → ∀ i, i < bCols →
+  ∀ (aRows bRows bCols : Nat) (A : CSR) (b : DenseM), A.WF → A.ColsIn aRows → ∀ i, i < bCols →
     (slice (dotCscNdSparse aRows bRows bCols A b).indices ((dotCscNdSparse aRows bRows bCols A b).indptr.getD i 0)
       ((dotCscNdSparse aRows bRows bCols A b).indptr.getD (i + 1) 0)).Pairwise (· < ·)
 
@@ -207,7 +207,7 @@ theorem csc_cols_sorted_counterexample : ¬ Statement_csc_nd_sparse_cols_sorted 
 
 /-- the region in which `_dot_csc_ndarray_sparse` leaves allocated slots unwritten: some position
 touched while computing an output column ends with sum 0 -/
-def ExcludedCscCancel (bRows bCols : Nat) (A : CSR) (b : Dense) : Bool :=
+def ExcludedCscCancel (bRows bCols : Nat) (A : CSR) (b : DenseM) : Bool :=
   (List.range bCols).any fun i =>
     (chainOf ((cscTouches bRows A b i).map (·.1))).any fun k => CSR.contrib (cscTouches bRows A b i) k == 0
 
@@ -222,7 +222,7 @@ def cooGet (es : List Ent) (i j : Nat) : Int := ((es.filter fun e => e.1 == i &&
 /-- outside `ExcludedCscCancel`, `_dot_csc_ndarray_sparse` writes what it allocated and column `i` of its
 output looked up at row `k` is the product (`A` holds the columns of `a`: `a[k,j] = A.get j k`) -/
 def Statement_csc_nd_sparse_kernel_spec_partial : Prop :=
-  ∀ (aRows bRows bCols : Nat) (A : CSR) (b : Dense), A.WF → A.ColsIn aRows → ExcludedCscCancel bRows bCols A b = false →
+  ∀ (aRows bRows bCols : Nat) (A : CSR) (b : DenseM), A.WF → A.ColsIn aRows → ExcludedCscCancel bRows bCols A b = false →
     (dotCscNdSparse aRows bRows bCols A b).alloc = (dotCscNdSparse aRows bRows bCols A b).data.length ∧
     ∀ i k, i < bCols → k < aRows →
       lookupK (slice ((dotCscNdSparse aRows bRows bCols A b).indices.zip (dotCscNdSparse aRows bRows bCols A b).data)
@@ -231,12 +231,12 @@ def Statement_csc_nd_sparse_kernel_spec_partial : Prop :=
 
 /-- `_dot_csc_ndarray` (dense output) computes the product -/
 def Statement_csc_nd_kernel_spec : Prop :=
-  ∀ (aRows bRows bCols : Nat) (A : CSR) (b : Dense), A.ColsIn aRows → ∀ r c, r < aRows → c < bCols →
+  ∀ (aRows bRows bCols : Nat) (A : CSR) (b : DenseM), A.ColsIn aRows → ∀ r c, r < aRows → c < bCols →
     dget (dotCscNd aRows bRows bCols A b) r c = matmulSpec bRows (fun r j => A.get j r) (dget b) r c
 
 /-- whenever `_dot_coo_ndarray` / `_dot_coo_ndarray_sparse` return, they return `s1 @ x2ᵀ` (rows of `s1` sorted, coordinates in range) -/
 def Statement_coo_nd_kernel_spec : Prop :=
-  ∀ (nRows n nCols : Nat) (es : List Ent) (x2 : Dense) (fuel : Nat),
+  ∀ (nRows n nCols : Nat) (es : List Ent) (x2 : DenseM) (fuel : Nat),
     (es.map (·.1)).Pairwise (· ≤ ·) → (∀ e ∈ es, e.1 < nRows ∧ e.2.1 < n) →
     (∀ out, dotCooNd nRows nCols es x2 fuel = some out → ∀ i k, i < nRows → k < nCols →
       dget out i k = matmulSpec n (cooGet es) (fun j c => dget x2 c j) i k) ∧
@@ -245,7 +245,7 @@ def Statement_coo_nd_kernel_spec : Prop :=
 
 /-- `_dot_ndarray_coo` computes `x1 @ s2`; `_dot_ndarray_coo_sparse` (handed the elements of `s2ᵀ`, sorted) as well -/
 def Statement_nd_coo_kernel_spec : Prop :=
-  ∀ (nRows n nCols : Nat) (x1 : Dense) (es : List Ent), (∀ e ∈ es, e.1 < n ∧ e.2.1 < nCols) →
+  ∀ (nRows n nCols : Nat) (x1 : DenseM) (es : List Ent), (∀ e ∈ es, e.1 < n ∧ e.2.1 < nCols) →
     (∀ i k, i < nRows → k < nCols → dget (dotNdCoo nRows nCols x1 es) i k = matmulSpec n (dget x1) (cooGet es) i k) ∧
     ((es.map (·.2.1)).Pairwise (· ≤ ·) → ∀ i k, i < nRows → k < nCols →
       lookupK (rowOfTriples (dotNdCooSparse nRows x1 (es.map fun e => (e.2.1, e.1, e.2.2))) i) k
@@ -259,14 +259,14 @@ def ExcludedCooNdZeroCols (nCols : Nat) (es : List Ent) : Bool := nCols == 0 && 
 
 /-- **coo_nd_terminates.** Under the guard `0 < n_cols ∨ nnz = 0` the outer `while` of
 `_dot_coo_ndarray` makes progress in every iteration: `nnz + 1` units of fuel always suffice. -/
-theorem coo_nd_terminates (nRows nCols : Nat) (es : List Ent) (x2 : Dense) (h : 0 < nCols ∨ es = []) :
+theorem coo_nd_terminates (nRows nCols : Nat) (es : List Ent) (x2 : DenseM) (h : 0 < nCols ∨ es = []) :
     ∃ r, dotCooNd nRows nCols es x2 (es.length + 1) = some r := by
   rcases h with h | h
   · exact cooNdRun_terminates nCols es x2 h _ 0 _ (by omega)
   · subst h; exact ⟨_, rfl⟩
 
 /-- the same for `_dot_coo_ndarray_sparse` -/
-theorem coo_nd_sparse_terminates (nCols : Nat) (es : List Ent) (x2 : Dense) (h : 0 < nCols ∨ es = []) :
+theorem coo_nd_sparse_terminates (nCols : Nat) (es : List Ent) (x2 : DenseM) (h : 0 < nCols ∨ es = []) :
     ∃ r, dotCooNdSparse nCols es x2 (es.length + 1) = some r := by
   rcases h with h | h
   · exact cooNdSparseRun_terminates nCols es x2 h _ 0 _ (by omega)
@@ -274,11 +274,11 @@ theorem coo_nd_sparse_terminates (nCols : Nat) (es : List Ent) (x2 : Dense) (h :
 
 /-- "`_dot_coo_ndarray` and `_dot_coo_ndarray_sparse` return for every input" … -/
 def Statement_coo_nd_always_returns : Prop :=
-  ∀ (nRows nCols : Nat) (es : List Ent) (x2 : Dense),
+  ∀ (nRows nCols : Nat) (es : List Ent) (x2 : DenseM),
     (∃ fuel, dotCooNd nRows nCols es x2 fuel ≠ none) ∧ (∃ fuel, dotCooNdSparse nCols es x2 fuel ≠ none)
 
 /-- … fails on the whole excluded region: no amount of fuel is enough (the outer index never advances). -/
-theorem coo_nd_diverges (nRows : Nat) (es : List Ent) (x2 : Dense) (h : ExcludedCooNdZeroCols 0 es = true) :
+theorem coo_nd_diverges (nRows : Nat) (es : List Ent) (x2 : DenseM) (h : ExcludedCooNdZeroCols 0 es = true) :
     (∀ fuel, dotCooNd nRows 0 es x2 fuel = none) ∧ (∀ fuel, dotCooNdSparse 0 es x2 fuel = none) := by
   have hl : 0 < es.length := by
     cases es with
@@ -294,7 +294,7 @@ theorem coo_nd_always_returns_counterexample : ¬ Statement_coo_nd_always_return
   exact hf ((coo_nd_diverges 3 eye3 [] (by decide)).1 fuel)
 
 /-- outside the excluded region both kernels return -/
-theorem coo_nd_always_returns_partial (nRows nCols : Nat) (es : List Ent) (x2 : Dense)
+theorem coo_nd_always_returns_partial (nRows nCols : Nat) (es : List Ent) (x2 : DenseM)
     (h : ExcludedCooNdZeroCols nCols es = false) :
     (∃ fuel, dotCooNd nRows nCols es x2 fuel ≠ none) ∧ (∃ fuel, dotCooNdSparse nCols es x2 fuel ≠ none) := by
   have hg : 0 < nCols ∨ es = [] := by
